@@ -135,8 +135,11 @@ def model_table(sc):
     for call in sc['calls']:
         kind = PARSER_KINDS[call['parser']]
         text = sc['texts'][call['text']]['text']
-        if (kind, text) not in table:
-            table[(kind, text)] = model(kind, text)
+        f = call.get('fault')
+        need_events = bool(f and f['type'] == 'interrupt' and f.get('k') is None)
+        have = table.get((kind, text))
+        if have is None or (need_events and have[1] is None):
+            table[(kind, text)] = model(kind, text, need_events)
     fam_kind = {'specification': 'specification', 'property': 'property', 'predicate': 'predicate', 'condition': 'condition'}
     for ti in sc.get('module_calls', ()):
         tx = sc['texts'][ti]
@@ -146,8 +149,9 @@ def model_table(sc):
     return table
 
 
-def model(kind, text):
-    """Outcome of a parser with no past, plus the number of traced line events of that call."""
+def model(kind, text, need_events=False):
+    """Outcome of a parser with no past, plus (only when asked: tracing costs 20x) the number of
+    traced line events of that call."""
     key = (kind, text)
     if _table[0] is not None:
         r = _table[0].get(key)
@@ -155,7 +159,7 @@ def model(kind, text):
             return r
         raise core.HarnessError('reference outcome missing for %r' % (key,))
     r = _memo.get(key)
-    if r is not None:
+    if r is not None and (r[1] is not None or not need_events):
         return r
     p = pristine(kind)
     rfd, wfd = os.pipe()
@@ -165,12 +169,12 @@ def model(kind, text):
         try:
             os.close(rfd)
             signal.setitimer(signal.ITIMER_VIRTUAL, CPU_BUDGET * 3)
-            it = seams.Interrupter(None)
+            it = seams.Interrupter(None) if need_events else None
             try:
                 oc = outcome_of(p.parse, text, it)
             except RecursionError:
                 oc = ('err', 'RecursionError', None)
-            data = pickle.dumps((oc, it.events))
+            data = pickle.dumps((oc, it.events if it is not None else None))
             os.write(wfd, data)
             status = 0
         finally:
@@ -185,7 +189,7 @@ def model(kind, text):
     os.close(rfd)
     os.waitpid(pid, 0)
     if not chunks:
-        r = (('err', 'ModelTimeout', None), 0)
+        r = (('err', 'ModelTimeout', None), 0 if need_events else None)
     else:
         r = pickle.loads(b''.join(chunks))
     if len(_memo) > 20000:
@@ -413,7 +417,7 @@ def execute(sc, stats=None, fresh_parsers=None, trace=None):
             if fault and fault['type'] == 'interrupt':
                 k = fault.get('k')
                 if k is None:
-                    k = max(1, 1 + int(fault['frac'] * max(0, m_events - 1)))
+                    k = max(1, 1 + int(fault['frac'] * max(0, (m_events or 1) - 1)))
                     fault['k'] = k
                 it = seams.Interrupter(k, fault['exc'])
                 try:
